@@ -56,19 +56,20 @@ type rdbKeySpec struct {
 }
 
 type rdbCfg struct {
-	Restore   bool   `json:"restore"`             // ReplayRdbEnableRestore
-	BulkLen   int    `json:"bulklen"`             // MaxProtoBulkLen
-	Parallel  int    `json:"parallel"`            // ReplayRdbParallel
-	DbMode    string `json:"dbmode"`              // "id" | "map31" | "all0"
-	Resume    bool   `json:"resume"`              // EnableResumeFromBreakPoint (final checkpoint written to the target)
-	Policy    string `json:"policy,omitempty"`    // KeyExists: "" = replace | ignore | error
-	Bisync    bool   `json:"bisync,omitempty"`    // bidirectional replay (rdbReplayBisync, one MULTI/EXEC unit per entry)
-	PipeSize  int    `json:"pipesize,omitempty"`  // config.RdbPipeSize for this execution (0 = shipped value)
-	Filter    string `json:"filter,omitempty"`    // "" (db 5 + prefix flt: black-listed) | prefix-black | prefix-white | slot-white | db-black
-	FilterDB  int    `json:"filterdb,omitempty"`  // the black-listed database of Filter db-black
-	TargetVer string `json:"targetver,omitempty"` // Redis.Version of the target; "" = 7.2.0 without version gating in the double (legacy scenarios)
-	VerifyCrc bool   `json:"verifycrc,omitempty"` // the global channel.verifyCrc flag (config.GetSyncerConfig().Channel.VerifyCrc) during this execution
-	HashTag   bool   `json:"hashtag,omitempty"`   // ReplaceHashTag: the first "{" and the first "}" of a key name are removed on the target
+	Restore        bool    `json:"restore"`                   // ReplayRdbEnableRestore
+	BulkLen        int     `json:"bulklen"`                   // MaxProtoBulkLen
+	Parallel       int     `json:"parallel"`                  // ReplayRdbParallel
+	DbMode         string  `json:"dbmode"`                    // "id" | "map31" | "all0"
+	Resume         bool    `json:"resume"`                    // EnableResumeFromBreakPoint (final checkpoint written to the target)
+	Policy         string  `json:"policy,omitempty"`          // KeyExists: "" = replace | ignore | error
+	Bisync         bool    `json:"bisync,omitempty"`          // bidirectional replay (rdbReplayBisync, one MULTI/EXEC unit per entry)
+	PipeSize       int     `json:"pipesize,omitempty"`        // config.RdbPipeSize for this execution (0 = shipped value)
+	Filter         string  `json:"filter,omitempty"`          // "" (db 5 + prefix flt: black-listed) | prefix-black | prefix-white | slot-white | db-black
+	FilterDB       int     `json:"filterdb,omitempty"`        // the black-listed database of Filter db-black
+	TargetVer      string  `json:"targetver,omitempty"`       // Redis.Version of the target; "" = 7.2.0 without version gating in the double (legacy scenarios)
+	PolicyVerbatim *string `json:"policy_verbatim,omitempty"` // KeyExists exactly as the tool's configuration loader produced it (overrides Policy in the output configuration; Policy stays what the oracle judges)
+	VerifyCrc      bool    `json:"verifycrc,omitempty"`       // the global channel.verifyCrc flag (config.GetSyncerConfig().Channel.VerifyCrc) during this execution
+	HashTag        bool    `json:"hashtag,omitempty"`         // ReplaceHashTag: the first "{" and the first "}" of a key name are removed on the target
 }
 
 func (c rdbCfg) targetVer() string {
@@ -99,6 +100,13 @@ func (c rdbCfg) policy() string {
 		return "replace"
 	}
 	return c.Policy
+}
+
+func (c rdbCfg) keyExistsForTool() string {
+	if c.PolicyVerbatim != nil {
+		return *c.PolicyVerbatim
+	}
+	return c.policy()
 }
 
 func (c rdbCfg) cpName() string {
@@ -139,7 +147,7 @@ func (c rdbCfg) outputConfig() RedisOutputConfig {
 		ReplayMode:                 config.ReplayModeSync,
 		Redis:                      rc,
 		EnableResumeFromBreakPoint: c.Resume,
-		KeyExists:                  c.policy(),
+		KeyExists:                  c.keyExistsForTool(),
 		TargetDb:                   -1,
 		MaxProtoBulkLen:            c.BulkLen,
 		BatchCmdCount:              64,
